@@ -1,0 +1,26 @@
+#ifndef OSMIUM_UTIL_VERIF_HOOKS_HPP
+#define OSMIUM_UTIL_VERIF_HOOKS_HPP
+
+/*
+
+Verification hooks. These do nothing unless OSMIUM_VERIF_SIM is defined, which
+only the external verification harness does. With the macro undefined the
+library behaves exactly as before.
+
+*/
+
+#ifdef OSMIUM_VERIF_SIM
+
+// Supplied by the verification harness: returns the value to use for the
+// named tuning constant (or the default).
+extern "C" unsigned long osmium_verif_value(const char* name, unsigned long default_value);
+
+# define OSMIUM_VERIF_VALUE(name, default_value) (osmium_verif_value((name), (default_value)))
+
+#else
+
+# define OSMIUM_VERIF_VALUE(name, default_value) (default_value)
+
+#endif
+
+#endif // OSMIUM_UTIL_VERIF_HOOKS_HPP
